@@ -985,6 +985,7 @@ class IMAPClientCommand:
         self.list_patterns: list[str] = []
         self.list_status_atts: list[StatusAtt] = []
         self.list_mailbox: str = ""
+        self.list_reference_is_level: bool = False
 
         self._p_simple_string(" ")
 
@@ -2034,6 +2035,13 @@ class IMAPClientCommand:
         # be given as a quoted string or literal too.
         #
         mbox_name = self._p_astring()
+        if reference:
+            # A reference that ends with the hierarchy delimiter names a level
+            # of the hierarchy: `a/` with `%` are the children of `a`, `a` with
+            # `%` are `a`, `ab`, ... Normalising the name below drops that
+            # delimiter, so remember it for LIST and LSUB.
+            #
+            self.list_reference_is_level = mbox_name.endswith("/")
         if mbox_name.lower() == "inbox":
             return "inbox"
         if mbox_name != "":
